@@ -112,7 +112,9 @@ def gen_bsdi(rng):
 
 def gen_bcrypt(rng, sub):
     cost, cls = rng.choice([(b"04", "ok"), (b"05", "ok"), (b"04", "ok"), (b"00", "too-low"), (b"03", "too-low"), (b"32", "too-high"),
-                            (b"4$", "one-digit"), (b"0x", "nondigit")])
+                            (b"4$", "one-digit"), (b"0x", "nondigit"),
+                            # spellings a numeric parse (strtoul/atoi) would accept where the documented field is two decimal digits (seeded/C06d)
+                            (b"+4", "signed"), (b"+5", "signed"), (b"-4", "signed"), (b" 4", "space"), (b"4 ", "space"), (b"0+", "nondigit")])
     salt = rs(rng, BF64, 22)
     r = rng.random()
     if r < 0.1: salt = salt[:rng.randrange(0, 22)]
